@@ -61,7 +61,8 @@ def observe(ver, o, what="svcnrte"):
 
 NAMES = {"s": "scores", "v": "severities", "c": "clean_vector", "n": "clean_vector(output_prefix=False)",
          "r": "rh_vector", "t": "temporal_vector", "e": "environmental_vector", "j": "as_json()",
-         "k": "as_json(minimal=True)", "J": "as_json(sort=True)", "K": "as_json(sort=True,minimal=True)", "w": "compute_*() again"}
+         "k": "as_json(minimal=True)", "J": "as_json(sort=True)", "K": "as_json(sort=True,minimal=True)", "w": "compute_*() again",
+         "f": "option flags given as other truthy / falsy values"}
 
 
 def parse_fields(ver, s):
